@@ -313,6 +313,9 @@ func runProperty(id string, progs []*cfgProg, loadErr error, tier string) *propR
 				}
 			}()
 			ck.A = resolveAnchors(cp.p)
+			for _, n := range cp.p.Desugared {
+				ck.info("%s", n)
+			}
 			spec.Run(ck)
 			if tier == "thorough" && cp.name == "" && callGraphProps[id] {
 				ck.vtaObligation()
